@@ -363,6 +363,31 @@ Iter(s, c) ==
 RECURSIVE Loop(_, _)
 Loop(s, c) == LET r == Iter(s, c) IN IF r.done THEN r.s ELSE Loop(r.s, r.c)
 
+\* A description of the iteration Iter(s, c) is about to run; the sequence of these over a call
+\* is the call's SIGNATURE, used only to classify behaviours for replay (coverage classes).
+IterTag(s, c) ==
+  CASE s.phase = "Sleep" -> <<"wake">>
+    [] s.phase = "Mark" ->
+         IF s.gray # <<>> \/ s.grayAgain # <<>> THEN
+           LET o == IF s.gray # <<>> THEN Last(s.gray) ELSE Last(s.grayAgain) IN
+           <<IF s.gray # <<>> THEN "gray" ELSE "again", c.fault.at = 0 /\ Ticks(s, o)>>
+         ELSE IF s.rootNT THEN
+           <<"root", c.fault.at = 0>>
+         ELSE IF StopOf(c.kind) <= 0 THEN <<"stop-marked">>
+         ELSE <<"enter-sweep", s.head = NoObj>>
+    [] s.phase = "Sweep" ->
+         IF StopOf(c.kind) <= 1 THEN <<"stop-sweep">>
+         ELSE IF s.sweep = NoObj THEN <<"end-sweep", c.slept>>
+         ELSE <<"sweep", s.color[s.sweep], s.live[s.sweep], s.sweepPrev = NoObj, s.next[s.sweep] = NoObj>>
+    [] OTHER -> <<"?">>
+
+RECURSIVE LoopSig(_, _)
+LoopSig(s, c) == LET r == Iter(s, c) IN IF r.done THEN <<IterTag(s, c)>> ELSE <<IterTag(s, c)>> \o LoopSig(r.s, r.c)
+
+CallSig(s, kind, b, g, cont, fault) ==
+  IF kind \in PayKinds /\ (b = 0 \/ Count(s) = 0) THEN <<>>
+  ELSE LoopSig(s, [kind |-> kind, slept |-> FALSE, budget |-> b, gran |-> g, cont |-> cont, fault |-> fault])
+
 \* A public collection call.  b = 0 stands for "called with no debt".  `fault` arms a trace
 \* panic at the fault.at-th trace invocation of this call (NoFaultRec: none).
 CallF(s, kind, b, g, cont, fault) ==
